@@ -159,22 +159,27 @@ def run():
     docs = docgen.documents(ck, 'blocks')
     from . import blockparse
     n_gen = len(docs)
-    docs = docs + blockparse.documents(ck, 3 if ck.tier == 'quick' else 4, laws=False, deep_more=True)       # every short line sequence, read by spec/BlockParse.tla
-    chunk = 400
-    jobs = [docs[a:a + chunk] for a in range(0, len(docs), chunk)]
-    ctx = mp.get_context('fork')
-    with ctx.Pool(core.NCPU) as pool:
-        got = [x for part in pool.map(_worker, jobs) for x in part]
-    for i, (d, g) in enumerate(zip(docs, got)):
-        ck.count(d['src'] if d['nblocks'] >= 2 else None)
-        ck.traces += 1
-        if i % 4001 == 0:
-            ck.sample({'source': d['src'], 'expected_lines': d['lines']})
-        if g != d['lines']:
-            same_shape = [x['t'] for x in g] == [x['t'] for x in d['lines']]
-            clause = 'DocGen.line-numbers' if same_shape else 'DocGen.blocks-differ'
-            ck.violation('%s: source=%r expected=%s observed=%s tags=%s' % (clause, d['src'], d['lines'], g, d['tags']),
-                         {'input': d['src'], 'expected': d['lines'], 'observed': g, 'classes': sorted(d['tags']), 'clause': clause})
+
+    def judge_part(part):
+        chunk = 400
+        jobs = [part[a:a + chunk] for a in range(0, len(part), chunk)]
+        ctx = mp.get_context('fork')
+        with ctx.Pool(core.NCPU) as pool:
+            got = [x for piece in pool.map(_worker, jobs) for x in piece]
+        for i, (d, g) in enumerate(zip(part, got)):
+            ck.count(d['src'] if d['nblocks'] >= 2 else None)
+            ck.traces += 1
+            if i % 4001 == 0:
+                ck.sample({'source': d['src'], 'expected_lines': d['lines']})
+            if g != d['lines']:
+                same_shape = [x['t'] for x in g] == [x['t'] for x in d['lines']]
+                clause = 'DocGen.line-numbers' if same_shape else 'DocGen.blocks-differ'
+                ck.violation('%s: source=%r expected=%s observed=%s tags=%s' % (clause, d['src'], d['lines'], g, d['tags']),
+                             {'input': d['src'], 'expected': d['lines'], 'observed': g, 'classes': sorted(d['tags']), 'clause': clause})
+    judge_part(docs)
+    # every short line sequence, read by spec/BlockParse.tla (part by part: memory)
+    for part in blockparse.document_parts(ck, 3 if ck.tier == 'quick' else 4, laws=False, deep_more=True):
+        judge_part(part)
     m = core.impl()
     arbitrary_inputs_layer(ck, m)
     d = docs[len(docs) // 2]
